@@ -35,7 +35,7 @@ def operand(rng, w, depth):
 def shorthand_pairs(rng, w):
     out = []
     e = operand(rng, w, 3)
-    k = rng.choice(['1', '-2', 'n', '(+ 1 2)', 'w[3]'])
+    k = rng.choice(['1', '-2', 'n', '(+ 1 2)', 'w[3]', '0', '-0', '+0', '0x0', '0b0', '0', '#f', 'false'])
     # @ applies to a strict expression: quote forms take the whole e@k, so they are parenthesised as operands here
     if not e.startswith(("'", '~')):
         out.append((f'{e}@{k}', f'(reval {e} {k})'))
